@@ -35,6 +35,10 @@ pub struct Case15 {
     /// sibling carries must not change how the subject migrates
     #[serde(default)]
     pub sibling: Option<String>,
+    /// where that second instance stands: 0 = next sibling of the subject, 1 = parent of the
+    /// subject, 2 = first child of the subject
+    #[serde(default)]
+    pub sibling_place: u8,
 }
 
 /// every spelling that, for `class`, migrates to `new_name`
@@ -228,7 +232,7 @@ fn split_xml_props(text: &str, a: &str, b: &str) -> Option<String> {
 }
 
 fn subject<'a>(dom: &'a WeakDom) -> Option<&'a rbx_dom_weak::Instance> {
-    dom.get_by_ref(*dom.root().children().first()?)
+    dom.descendants().find(|i| i.name == "subject")
 }
 
 type PathResult = Result<BTreeMap<String, String>, String>;
@@ -280,18 +284,26 @@ pub fn judge(c: &Case15) -> Vec<(String, String)> {
         if c.explicit_new && legacy_first {
             b = b.with_property(spelled.as_str(), explicit.clone());
         }
-        let mut root = InstanceBuilder::new("DataModel").with_child(b);
-        if let (Some(sp), true) = (&c.sibling, with_sibling) {
+        let root = if let (Some(sp), true) = (&c.sibling, with_sibling) {
             let other = values.get((c.value + 1) % values.len()).map(|v| v.1.clone()).unwrap_or_else(|| legacy_value.clone());
-            root = root.with_child(InstanceBuilder::new(c.class.as_str()).with_name("sibling").with_property(sp.as_str(), other));
-        }
+            let second = InstanceBuilder::new(c.class.as_str()).with_name("sibling").with_property(sp.as_str(), other);
+            match c.sibling_place {
+                1 => InstanceBuilder::new("DataModel").with_child(second.with_child(b)),
+                2 => InstanceBuilder::new("DataModel").with_child(b.with_child(second)),
+                _ => InstanceBuilder::new("DataModel").with_child(b).with_child(second),
+            }
+        } else {
+            InstanceBuilder::new("DataModel").with_child(b)
+        };
         WeakDom::new(root)
     };
     let build = |legacy_first: bool| build_with(legacy_first, true);
     // the legacy-named files of the read paths are written without a database, which stores a
     // neutral value for whoever lacks a column: a sibling under *another* legacy spelling would
     // make the file itself state two different legacy values for the subject
-    let sibling_in_files = c.sibling.as_deref() == Some(c.legacy.as_str());
+    // (and the text surgery that reorders elements of those files finds the first element of a
+    // name: only the plain sibling placement, where the subject comes first in the document)
+    let sibling_in_files = c.sibling.as_deref() == Some(c.legacy.as_str()) && c.sibling_place == 0;
 
     let mut paths: Vec<(String, PathResult)> = Vec::new();
     // with a sibling the write paths are repeated on freshly built DOMs: which of two entries a
@@ -561,22 +573,26 @@ pub fn cases() -> Vec<Case15> {
         let n = legacy_values(&class, &legacy).len();
         for value in 0..n {
             for explicit_new in [false, true] {
-                out.push(Case15 { class: class.clone(), legacy: legacy.clone(), value, explicit_new, new_spelling: None, sibling: None });
+                out.push(Case15 { class: class.clone(), legacy: legacy.clone(), value, explicit_new, new_spelling: None, sibling: None, sibling_place: 0 });
             }
             if let Lookup::Known(k) = specdb::lookup(&class, &legacy) {
                 if let Ser::Migrate { to, .. } = &k.ser {
                     for sp in alias_spellings(&class, to) {
-                        out.push(Case15 { class: class.clone(), legacy: legacy.clone(), value, explicit_new: true, new_spelling: Some(sp.clone()), sibling: None });
+                        out.push(Case15 { class: class.clone(), legacy: legacy.clone(), value, explicit_new: true, new_spelling: Some(sp.clone()), sibling: None, sibling_place: 0 });
                         if value < 3 {
                             for sib in legacy_spellings(&class, to) {
-                                out.push(Case15 { class: class.clone(), legacy: legacy.clone(), value, explicit_new: true, new_spelling: Some(sp.clone()), sibling: Some(sib) });
+                                for sibling_place in 0..3u8 {
+                                    out.push(Case15 { class: class.clone(), legacy: legacy.clone(), value, explicit_new: true, new_spelling: Some(sp.clone()), sibling: Some(sib.clone()), sibling_place });
+                                }
                             }
                         }
                     }
                     if value < 3 {
                         for sib in legacy_spellings(&class, to) {
                             for explicit_new in [false, true] {
-                                out.push(Case15 { class: class.clone(), legacy: legacy.clone(), value, explicit_new, new_spelling: None, sibling: Some(sib.clone()) });
+                                for sibling_place in 0..3u8 {
+                                    out.push(Case15 { class: class.clone(), legacy: legacy.clone(), value, explicit_new, new_spelling: None, sibling: Some(sib.clone()), sibling_place });
+                                }
                             }
                         }
                     }
